@@ -187,10 +187,10 @@ func rFields(fs []Field, indent string) string {
 
 func rInline(fs []Field) string {
 	var p []string
-	for _, f := range fs {
+	for i, f := range fs {
 		g := f
 		g.Cm, g.EndCm = "", ""
-		if g.Sep == "" {
+		if g.Sep == "" && i != len(fs)-1 {
 			g.Sep = ","
 		}
 		p = append(p, rField(g, ""))
